@@ -472,6 +472,18 @@ def k1_case():
            "identifiers, dropped and lagging streams, unsubscribe; then random walks with streams.")
 def c07(tier, rng):
     out = [k1_case()]
+    for cut in (1, 2, 3):
+        st = S()
+        a_ = st.sub(b"a")
+        st.poll(a_), st.deliver(M.suback(1)), st.poll(a_), st.ev("tostream %d" % a_)
+        m1 = M.publish(b"a", b"first", 0, None, ps=[(11, 1)])
+        m2 = M.publish(b"a", b"long one", 1, 9, ps=[(11, 1), (38, (b"k", b"v" * 300))])
+        m3 = M.publish(b"a", b"third", 0, None, ps=[(11, 1)])
+        stream = m1 + m2 + m3
+        st.deliver(stream[:len(m1) + cut]), st.deliver(stream[len(m1) + cut:])
+        for _ in range(4):
+            st.ev("pollstream %d" % a_)
+        out.append(case("length-cut-%d" % cut, st.script(), ["cut"]))
     # message between SUBSCRIBE and SUBACK, and before stream()
     s = S()
     a = s.sub(b"a")
@@ -713,6 +725,27 @@ def c09(tier, rng):
            "frees a slot, QoS 0 and other operations unlimited), then random walks with failing reasons.")
 def c10(tier, rng):
     out = []
+    for R in (1, 2):
+        for q in (1, 2):
+            for between in ("ping", "pub0", "refused"):
+                s = S(connack_props=[(33, R)])
+                fill = [s.pub(q=q, payload=b"f%d" % k) for k in range(R)]
+                for i_ in fill:
+                    s.poll(i_)
+                if q == 2:
+                    for i_ in fill:
+                        s.deliver(M.pubrec(s.ops[i_]["pid"])), s.poll(i_)
+                s.ev("dropop %d" % fill[0])
+                x = s.ping() if between == "ping" else (s.pub(q=0) if between == "pub0" else s.pub(q=1, payload=b"r"))
+                s.poll(x), s.poll(x)
+                pid0 = s.ops[fill[0]]["pid"]
+                s.deliver(M.puback(pid0) if q == 1 else M.pubcomp(pid0))
+                nxt = [s.pub(q=1, payload=b"n1"), s.pub(q=1, payload=b"n2")]
+                for i_ in nxt:
+                    s.poll(i_)
+                for i_ in nxt:
+                    s.poll(i_)
+                out.append(case("dropped-R%d-q%d-%s" % (R, q, between), s.script(), ["dropped", "R%d" % R]))
     for R, via in ((1, False), (2, False), (3, False), (1, True), (2, True)):
         for comp in ("puback", "pubcomp", "pubrecfail", "pubackfail", "pubcompfail"):
             s = S(connack_props=[(33, R)], via_auth=via)
@@ -932,6 +965,10 @@ def c12(tier, rng):
                     s.poll(i), s.poll(j)
                 out.append(case("c%d" % n, s.script(), [kind, "M=L%+d" % (Mx - L) if Mx and abs(Mx - L) <= 1 else "M=%s" % Mx],
                                 L=L, M=Mx, kind=kind))
+                # "written in full" however the transport takes the bytes: a few at a time, with Pending in between
+                if n % 3 == 0:
+                    wm = ["wmode 0 1", "wmode 3 2 5 1", "wmode 2 7", "wmode 0 3"][(n // 3) % 4]
+                    out.append(case("c%dw" % n, wm + " ; " + s.script(), [kind, "partial-writes"], L=L, M=Mx, kind=kind))
                 n += 1
     out += c12_extra()
     return out
@@ -1008,6 +1045,25 @@ def session_states():
            "outstanding, streams open, mid-QoS 2}; every CONNACK reason, AUTH, EOF for connect().")
 def c13(tier, rng):
     out = []
+    long_rs = b"r" * 150
+    for cut in (1, 2, 3):
+        ca = M.connack(0, 0, [(31, long_rs)])
+        out.append(case("connackcut-r0-%d" % cut, "connect ; deliver %s ; deliver %s ; run" % (hx(ca[:cut]), hx(ca[cut:])), ["connect", "cut"]))
+        cr = M.connack(0, 135, [(31, long_rs)])
+        out.append(case("connack-refusal-r135-cut%d" % cut, "connect ; deliver %s ; deliver %s ; run" % (hx(cr[:cut]), hx(cr[cut:])), ["connect", "cut"]))
+        for r in (0, 139):
+            d = M.disconnect(r, [(31, long_rs)], "long")
+            st = S()
+            a_ = st.pub(q=2)
+            st.poll(a_), st.deliver(M.pubrec(1)), st.poll(a_)
+            st.deliver(d[:cut]), st.deliver(d[cut:])
+            out.append(case("srvdisc-long-r%d-cut%d" % (r, cut), st.script(), ["srvdisc", "cut"]))
+            st = S()
+            g = st.ping()
+            st.poll(g)
+            glued = M.pingresp() + d
+            st.deliver(glued[:2 + cut]), st.deliver(glued[2 + cut:]), st.poll(g)
+            out.append(case("srvdisc-glued-r%d-cut%d" % (r, cut), st.script(), ["srvdisc", "cut", "glued"]))
     for via_clone in (False, True):
         st = S(connack_props=[(39, 3)])
         if via_clone:
@@ -1211,6 +1267,18 @@ def k2_case():
            "acknowledgement delivered afterwards; dropped streams; then random walks with drops.")
 def c15(tier, rng):
     out = [k2_case()]
+    # the abandoned QoS 2 exchange of K2 with a small Receive Maximum: whatever happens to its slot, the server's limit
+    # on unfinished exchanges is respected
+    for R in (1, 2):
+        st = S(connack_props=[(33, R)])
+        a = st.pub(q=2, payload=b"abandoned")
+        st.poll(a), st.ev("dropop %d" % a), st.deliver(M.pubrec(1))
+        more = [st.pub(q=1, payload=b"m%d" % k) for k in range(R + 1)]
+        for i_ in more:
+            st.poll(i_)
+        for i_ in more:
+            st.poll(i_)
+        out.append(case("K2-then-more-R%d" % R, st.script(), ["K2", "R%d" % R]))
     for kind in ("pub1", "pub2", "unsub"):
         st = S()
         a = st.pub(q=1) if kind == "pub1" else (st.pub(q=2) if kind == "pub2" else st.unsub(b"u"))
